@@ -248,6 +248,23 @@ def _add_funcs(rng, funcs, s, d, dirs):
         add(d, s)
 
 
+def _add_struct_funcs(rng, funcs, src_decls, dst_decls, isn, idn, sty, dty, dirs):
+    def intfields(decls, name):
+        d = [x for x in decls if x["name"] == name][0]
+        return [f for f in d["fields"] if not f["emb"] and f["ty"][0] == "basic" and f["ty"][1] in INT_KINDS]
+    sf, df = intfields(src_decls, isn), intfields(dst_decls, idn)
+    if not sf or not df:
+        return False
+    a, b = rng.choice(sf), rng.choice(df)
+    if dirs in ("to", "both"):
+        funcs.append({"name": "F%d" % len(funcs), "param": sty, "result": dty,
+                      "kind": ["pick", "dst", idn, a["name"], b["name"], b["ty"][1], rng.randint(1, 9), dty[0] == "ptr"]})
+    if dirs in ("from", "both"):
+        funcs.append({"name": "F%d" % len(funcs), "param": dty, "result": sty,
+                      "kind": ["pick", "src", isn, b["name"], a["name"], a["ty"][1], rng.randint(1, 9), sty[0] == "ptr"]})
+    return True
+
+
 def gen_pair(rng, quirks=False, force=None):
     """one random src/dest pair inside the guard of the C05/C09 theorems
     (quirks=True: may leave it through name fan-out, which the literal model reproduces)"""
@@ -301,6 +318,12 @@ def gen_pair(rng, quirks=False, force=None):
                     sty, dty = N("src", isn), N("dst", idn)
                     sty, dty = (P(sty) if sp else sty), (P(dty) if dp else dty)
                     kind = "sub"
+                    if allow_func and funcs is not None and mapper and mapper["pkg"] == "src" and rng.random() < 0.35:
+                        # a user mapper method on the sub-struct types, often in ONE direction only: the other
+                        # direction is then the generated ToX/FromX of the inner type
+                        if _add_struct_funcs(rng, funcs, src_decls, dst_decls, isn, idn, sty, dty,
+                                             rng.choice(["to", "to", "from", "both"])):
+                            feats.add("kind:sub_func")
                 else:
                     se, de = N("src", isn), N("dst", idn)
                     sty, dty = S(P(se) if sp else se), S(P(de) if dp else de)
@@ -434,18 +457,38 @@ def gen_pair(rng, quirks=False, force=None):
     dst_decls.append({"name": rd, "kind": "struct", "fields": droot})
     root_job = {"src": rs, "dst": rd, "manual_to": None, "manual_from": None}
     # manual toX / fromX on the root: `d.F += k` on plain top-level integer fields
-    if rng.random() < 0.2:
+    if rng.random() < 0.3:
         def ints(fl):
             return [f for f in fl if not f["emb"] and f["ty"][0] == "basic" and f["ty"][1] in INT_KINDS and f["tag"] != "-"]
-        di, si = ints(droot), ints(sroot)
-        if di and flags["way"] != "fromonly" and rng.random() < 0.7:
-            fs = rng.sample(di, min(len(di), rng.randint(1, 2)))
-            root_job["manual_to"] = [(f["name"], f["ty"][1], rng.randint(1, 50)) for f in fs]
-            feats.add("manual:to")
-        if si and flags["way"] != "toonly" and rng.random() < 0.7:
-            fs = rng.sample(si, min(len(si), rng.randint(1, 2)))
-            root_job["manual_from"] = [(f["name"], f["ty"][1], rng.randint(1, 50)) for f in fs]
-            feats.add("manual:from")
+
+        def structish(fl, pkg):
+            # fields held as sub-struct (value, pointer, slice) of this package: the manual method resets them
+            def named(t):
+                return t[0] == "named" and t[1] == pkg
+            return [f for f in fl if not f["emb"] and f["tag"] != "-" and
+                    (named(f["ty"]) or (f["ty"][0] in ("ptr", "slice") and (named(f["ty"][1]) or
+                     (f["ty"][1][0] == "ptr" and named(f["ty"][1][1])))))]
+
+        def ops(fl, pkg):
+            res = []
+            cand = ints(fl)
+            if cand and rng.random() < 0.7:
+                res += [(f["name"], f["ty"][1], rng.randint(1, 50)) for f in rng.sample(cand, min(len(cand), rng.randint(1, 2)))]
+            cand = structish(fl, pkg)
+            if cand and rng.random() < 0.7:
+                res += [(f["name"], None, f["ty"]) for f in rng.sample(cand, min(len(cand), rng.randint(1, 2)))]
+                feats.add("manual:substruct")
+            return res
+        if flags["way"] != "fromonly":
+            o = ops(droot, "dst")
+            if o:
+                root_job["manual_to"] = o
+                feats.add("manual:to")
+        if flags["way"] != "toonly":
+            o = ops(sroot, "src")
+            if o:
+                root_job["manual_from"] = o
+                feats.add("manual:from")
     jobs.append(root_job)
 
     spec = {"decls": {"src": src_decls, "dst": dst_decls}, "jobs": jobs, "funcs": funcs or [], "mapper": mapper,
@@ -567,10 +610,27 @@ def func_go(fn, here, spec):
     elif k[0] == "never":
         body = "return x > 3"
     elif k[0] == "pick":
-        body = "return %s{%s: %s(x.%s) + %d}" % (r, k[3], k[4], k[2], k[5])
+        # ["pick", wpkg, wname, fa, fb, basic, k, rptr]: struct (or pointer) of one side -> struct (or pointer) of the other
+        wt = go_type(["named", k[1], k[2]], here, QUALS)
+        guard = "x != nil" if fn["param"][0] == "ptr" else None
+        asg = "r.%s = %s(x.%s) + %d" % (k[4], k[5], k[3], k[6])
+        body = "var r %s\n\t%s\n\treturn %sr" % (
+            wt, ("if %s {\n\t\t%s\n\t}" % (guard, asg)) if guard else asg, "&" if k[7] else "")
     else:
         raise ValueError(k)
     return "func (Mapper) %s(x %s) %s {\n\t%s\n}\n" % (fn["name"], p, r, body)
+
+
+def go_zero(spec, t, here):
+    """Go text of the zero value of t"""
+    if t[0] in ("ptr", "slice", "map"):
+        return "nil"
+    if t[0] == "basic":
+        return {"string": '""', "bool": "false"}.get(t[1], "0")
+    d = struct_decl(spec, t[1], t[2])
+    if d["kind"] == "basic":
+        return go_zero(spec, ["basic", d["basic"]], here)
+    return go_type(t, here, QUALS) + "{}"
 
 
 def render_go(spec, mod="vmod", sub="p0"):
@@ -593,13 +653,19 @@ def render_go(spec, mod="vmod", sub="p0"):
         recv = j["src"][:1].lower()
         if recv == "d":
             recv = "r"
+        def mline(var, op, herepkg):
+            f, b, k = op
+            if b is not None:
+                return "\t%s.%s += %d\n" % (var, f, k)
+            types_used(k, used_extra)
+            return "\t%s.%s = %s\n" % (var, f, go_zero(spec, k, herepkg))
         if j.get("manual_to"):
             extra += "\nfunc (%s *%s) to%s(d *dest.%s) {\n%s}\n" % (
-                recv, j["src"], key, j["dst"], "".join("\td.%s += %d\n" % (f, k) for f, b, k in j["manual_to"]))
+                recv, j["src"], key, j["dst"], "".join(mline("d", op, "src") for op in j["manual_to"]))
             used_extra.add("dst")
         if j.get("manual_from"):
             extra += "\nfunc (%s *%s) from%s(d dest.%s) {\n%s}\n" % (
-                recv, j["src"], key, j["dst"], "".join("\t%s.%s += %d\n" % (recv, f, k) for f, b, k in j["manual_from"]))
+                recv, j["src"], key, j["dst"], "".join(mline(recv, op, "src") for op in j["manual_from"]))
             used_extra.add("dst")
     used, body = _render_decls(spec["decls"]["src"], "src", mod, sub, extra)
     files["%s/src/src.go" % sub] = "package src\n\n" + _imports(used | used_extra, "src", mod, sub) + body
@@ -892,7 +958,8 @@ def coq_fkind(k):
     if k[0] == "never":
         return "FNot"
     if k[0] == "pick":
-        return '(FPick "%s" "%s" "%s" %s (%d)%%Z)' % (k[1], k[2], k[3], COQ_BASIC[k[4]], k[5])
+        return '(FPick %s "%s" "%s" "%s" %s (%d)%%Z %s)' % (coq_pkg(k[1]), k[2], k[3], k[4], COQ_BASIC[k[5]], k[6],
+                                                             "true" if k[7] else "false")
     raise ValueError(k)
 
 
@@ -940,9 +1007,15 @@ def render_coq_pair(spec):
                 "true" if j.get("src_shootnew") else "false",
                 coq_opt_names(j.get("manual_to")), coq_opt_names(j.get("manual_from"))))
 
+    def mop(op):
+        f, b, k = op
+        if b is not None:
+            return '(MAdd "%s" %s (%d)%%Z)' % (f, COQ_BASIC[b], k)
+        return '(MZero "%s" %s)' % (f, coq_ty(k))
+
     def manual(key):
-        return "[%s]" % "; ".join('("%s", [%s])' % (j["src"], "; ".join(
-            '("%s", %s, (%d)%%Z)' % (f, COQ_BASIC[b], k) for f, b, k in j[key])) for j in spec["jobs"] if j.get(key))
+        return "[%s]" % "; ".join('("%s", [%s])' % (j["src"], "; ".join(mop(op) for op in j[key]))
+                                  for j in spec["jobs"] if j.get(key))
     return ("(let E : env := [%s] in let FN : list mfunc := %s in {| ps_env := E; ps_fuel := %d; ps_jobs := [%s]; "
             "ps_funcs := [%s]; ps_manual_to := %s; ps_manual_from := %s; ps_way := %s |})" % (
                 ";\n  ".join(decls), funcs, fuel, ";\n  ".join(jobs),
@@ -1141,6 +1214,24 @@ def corpus():
          st("T", [_f("UserName", B("string")), _f("Code", B("int32")), _f("Lv", B("int16")), _f("St", N("dst", "Status")),
                   _f("Tx", N("dst", "Text")), _f("Alpha", B("string"))])],
         [_job("T", "T")]))
+    # 11. sub-struct fields whose ToX (resp. FromX) side is taken by a ONE-WAY mapper method or by a manual method:
+    #     only the other branch of makeSubMap runs for the pair (pointer and value on either side)
+    res.append(_spec(
+        [inner_s, st("Mapper", []),
+         st("T", [_f("Mapper", N("src", "Mapper"), emb=True), _f("Address", P(N("src", "Inner"))), _f("Addr2", N("src", "Inner")),
+                  _f("Home", P(N("src", "Inner"))), _f("Work", N("src", "Inner")), _f("Flat", P(N("src", "Inner"))),
+                  _f("Cnt", B("int"))])],
+        [inner_d,
+         st("T", [_f("Address", N("dst", "Inner")), _f("Addr2", P(N("dst", "Inner"))), _f("Home", P(N("dst", "Inner"))),
+                  _f("Work", N("dst", "Inner")), _f("Flat", N("dst", "Inner")), _f("Cnt", B("int"))])],
+        [_job("Inner", "Inner"),
+         {"src": "T", "dst": "T", "manual_to": [("Home", None, P(N("dst", "Inner"))), ("Cnt", "int", 7)],
+          "manual_from": [("Work", None, N("src", "Inner")), ("Flat", None, P(N("src", "Inner")))]}],
+        [{"name": "AddrToDest", "param": P(N("src", "Inner")), "result": N("dst", "Inner"),
+          "kind": ["pick", "dst", "Inner", "A", "A", "int64", 3, False]},
+         {"name": "Addr2FromDest", "param": P(N("dst", "Inner")), "result": N("src", "Inner"),
+          "kind": ["pick", "src", "Inner", "A", "A", "int", 4, False]}],
+        {"name": "Mapper", "pkg": "src"}))
     return res
 
 
@@ -1150,7 +1241,7 @@ def unexport(name):
     return to_camel_go(name)
 
 
-def to_shootnew(rng, spec, side, tname, p_unexport=0.75, allow_setonly=False):
+def to_shootnew(rng, spec, side, tname, p_unexport=0.75, allow_setonly=False, embed=True):
     """render struct <tname> of package <side> ('src'|'dst') as a `shoot new -getset` type: most plain fields
     become unexported with a //shoot: directive (none = get+set, get, set), optionally a `new`-restricted
     constructor.  Embedded fields are removed (C15 covers flat shoot-new types)."""
@@ -1161,6 +1252,36 @@ def to_shootnew(rng, spec, side, tname, p_unexport=0.75, allow_setonly=False):
             continue
         flat.append(f)
     d["fields"] = flat
+    feats = set(spec.get("features", []))
+    # an embedded shoot-new base type (one level, by value or by pointer): its accessors reach the outer type
+    # through the embedded <Base>Getter/<Base>Setter interfaces, its fields through the nested constructor literal
+    base = None
+    plain = [f for f in flat if not f["emb"] and f["tag"] == ""]
+    if embed and len(plain) >= 2 and rng.random() < 0.5:
+        moved = rng.sample(plain, rng.randint(1, min(3, len(plain) - 1)))
+        bname = ("S" if side == "src" else "D") + "Base" + tname
+        ptr = rng.random() < 0.4
+        base = {"name": bname, "kind": "struct", "fields": moved}
+        for f in moved:
+            flat.remove(f)
+        pos = 1 if (flat and flat[0]["emb"]) else 0
+        bt = ["named", side, bname]
+        flat.insert(pos, {"name": bname, "emb": True, "ty": ["ptr", bt] if ptr else bt, "tag": "", "vc": "full"})
+        decls = spec["decls"][side]
+        decls.insert(decls.index(d), base)
+        feats.add("shootnew-embed:%s:%s" % (side, "ptr" if ptr else "val"))
+    for dd in ([base] if base else []) + [d]:
+        _shootnew_fields(rng, spec, dd, side, p_unexport, allow_setonly, feats)
+    spec["features"] = sorted(feats)
+    # manual methods refer to fields by name: drop them on a converted type
+    for j in spec["jobs"]:
+        if (side == "src" and j["src"] == tname) or (side == "dst" and j["dst"] == tname):
+            j["manual_to"] = None
+            j["manual_from"] = None
+
+
+def _shootnew_fields(rng, spec, d, side, p_unexport, allow_setonly, feats):
+    flat = d["fields"]
     restrict = rng.random() < 0.4
     any_new = False
     for f in flat:
@@ -1186,19 +1307,12 @@ def to_shootnew(rng, spec, side, tname, p_unexport=0.75, allow_setonly=False):
         f["new"] = restrict and rng.random() < 0.5
         any_new = any_new or f["new"]
     d["shootnew"] = {"restrict": restrict and any_new}
-    feats = set(spec.get("features", []))
     feats.add("shootnew:" + side)
     if d["shootnew"]["restrict"]:
         feats.add("ctor:restricted")
     for f in flat:
         if f.get("acc"):
             feats.add("acc:" + f["acc"])
-    spec["features"] = sorted(feats)
-    # manual methods refer to fields by name: drop them on a converted type
-    for j in spec["jobs"]:
-        if (side == "src" and j["src"] == tname) or (side == "dst" and j["dst"] == tname):
-            j["manual_to"] = None
-            j["manual_from"] = None
 
 
 def directive_comment(f):
